@@ -246,6 +246,30 @@ class C20Reports(Monitor):
         self._check_reports(tree, where)
         self._check_purity(tree, where)
 
+    def on_gsc(self, tree, verdict, kind, deme):
+        """A user-defined stop condition may read the tree whenever it is consulted (also in the middle of a metaepoch):
+        looking then must be just as harmless.  Only purity is judged here; the reports are judged at the boundaries."""
+        from ..observe import raw_digest, rng_fingerprint
+
+        ctx = self.ctx
+        if ctx.n_gsc % 3 or not tree.levels[0] or not tree.root.history:
+            return
+        n0, dg0, r0 = len(ctx.log), raw_digest(tree), rng_fingerprint()
+        try:
+            tree.best_individual
+            tree.summary()
+            tree.n_evaluations
+        except Exception as e:
+            self.cov(f"accessor_raised_mid_metaepoch.{type(e).__name__}")
+            return
+        self.cov("mid_metaepoch_looks")
+        if len(ctx.log) != n0:
+            self.v("a reporting / query accessor invoked the objective: looking in the middle of a metaepoch")
+        if raw_digest(tree) != dg0:
+            self.v("a reporting / query accessor changed the tree's state: looking in the middle of a metaepoch")
+        if rng_fingerprint() != r0:
+            self.v("a reporting / query accessor consumed global random numbers: looking in the middle of a metaepoch")
+
     def on_tree_ready(self, tree):
         self._at(tree, "start")
 
